@@ -365,9 +365,29 @@ def run_c01_c03(prop, tier):
     return R.finish()
 
 
+def all_e1_names():
+    import glob
+    return [os.path.basename(f)[:-5] for f in sorted(glob.glob(os.path.join(common.VERIF, 'corpus', 'e1', '*.kiki')))]
+
+
 def run_c02(tier):
     R = Result('C02', tier, 'model_checking')
+    import threading
+    box = {}
+
+    def steps():
+        try:
+            box['steps'] = checks_emitted.run_reduce_steps('C02', tier, all_e1_names(), R)
+        except Exception:
+            import traceback
+            box['err'] = traceback.format_exc()
+    th = threading.Thread(target=steps)
+    th.start()
     st, samples = run_e1_sets('C02', tier, R)
+    th.join()
+    if 'err' in box:
+        R.inconclusive.append('reduce-step leg crashed: ' + box['err'][-600:])
+    step_stats, step_samples = box.get('steps', ({}, []))
     R.coverage.update({
         'states': max(1, st['cbmc_checks']), 'transitions': max(1, st['cbmc_checks']),
         'traces_validated_against_impl': st['native_validation_runs'],
@@ -375,8 +395,12 @@ def run_c02(tier):
         'explanation': 'SAT-based bounded model checking: states/transitions report CBMC properties discharged; '
                        'traces_validated_against_impl = runs of the same harness code against the unshimmed emitted module built by plain rustc (dev+release)',
         'E1_kani_on_real_emitted_code': st,
+        'E1_reduce_steps': step_stats,
+        'reduce_step_samples': step_samples,
         'functions_encoded': ['the whole emitted module as compiled by Kani; Vec/Box/vec! replaced by harness/e1/vstd.rs; '
-                              'tree walker generated from the declarations (explicit exhaustive patterns)'],
+                              'tree walker generated from the declarations (explicit exhaustive patterns)',
+                              'reduce steps: pop_and_reduce + reduce_rN of every rule of every corpus/e1 grammar from a stack holding the '
+                              'minimal trees of the rhs symbols with symbolic payload bytes (rule lengths up to 13)'],
         'bounds': 'all kind strings and all payload bytes for n <= per-grammar bound: %s' % (E1_SETS['C02'][tier],),
         'trusted_base': ['reference span parser (unique derivation) in lib/lrref.py', 'container shim', 'Kani, CBMC, rustc'],
         'exhaustive': False,
@@ -409,7 +433,28 @@ def run_c09(tier):
         elif o.iso is None:
             R.inconclusive.append('parser.rs table isomorphism: ' + o.reason)
     maxlen = 8 if tier == 'quick' else 11
+    # byte span / text leg: Kani span harnesses on the real unexpected_token_or_eof_to_kiki_err (in parallel)
+    import threading
+    import checks_total
+    import checks_tok
+    span_box = {}
+
+    def span_thread():
+        try:
+            span_box['res'] = checks_total.run_span(tier)
+        except Exception:
+            import traceback
+            span_box['err'] = traceback.format_exc()
+    th = threading.Thread(target=span_thread)
+    th.start()
     st, samples = e2_over([A], lambda A: list(range(0, maxlen + 1)), R, 'C09', tier, wd)
+    th.join()
+    span_stats = {'harnesses': 0, 'passed': 0, 'twins': 0, 'cbmc_checks': 0, 'covers': 0, 'solver_s': 0.0}
+    span_samples = []
+    if 'err' in span_box:
+        R.inconclusive.append('span harness leg crashed: ' + span_box['err'][-500:])
+    else:
+        checks_tok.fold('C09', tier, R, span_box['res'], span_stats, span_samples, 'unit')
     # model validation on prefixes of the repo's example files
     vals = []
     for name, path in corpus_mod.repo_examples(common.REPO)[:4]:
@@ -424,6 +469,8 @@ def run_c09(tier):
         'disagreements_checked': len(R.violations) + len(R.known_hits),
         'samples': samples[:12],
         'table_isomorphism_unbounded': iso_info,
+        'span_harnesses': span_stats,
+        'span_samples': span_samples[:6],
         'E2_cbmc_on_table_model': st,
         'functions_encoded': ['kiki/src/parser.rs: ACTION_TABLE, GOTO_TABLE, start state, 42 inlined reductions (pop kinds, truncate, lhs), '
                               'driver loop text-compared with the modelled driver', 'reference recogniser circuit of kiki/src/parser.kiki'],
@@ -431,7 +478,7 @@ def run_c09(tier):
         'trusted_base': ['reference circuit / LALR(1) builder', 'independent reader of parser.kiki', 'extractor + driver/glue text checks', 'CBMC, z3'],
         'exhaustive': False,
     })
-    R.assumptions += ['byte span / text of the error (unexpected_token_or_eof_to_kiki_err) is decided by the Kani harnesses reported under coverage.span_harnesses when present',
+    R.assumptions += ['byte span / text of the error: Kani span harnesses (harness/kani_units/src/span.rs) build each token kind the way the tokenizer does (post-condition of the C08 step harnesses) and run the real conversion; windows of 12 bytes, token positions 0..3, lexemes <= 6 bytes',
                       'payload-independence of the front-end parser: from_terminal matches on the variant only (checked textually)']
     return R.finish()
 
@@ -439,7 +486,7 @@ def run_c09(tier):
 def replay(prop, path):
     obj = json.load(open(path))
     rp = obj['replay']
-    if 'vals' in rp:
+    if 'vals' in rp or rp.get('step'):
         return checks_emitted.replay_e1(obj)
     if rp.get('artefact') == 'parser_rs':
         A, g = parser_rs_artefact()
